@@ -22,8 +22,9 @@
 #include "zstd.h"
 #include "zstd_errors.h"
 
-#define V_MIN(a,b) ((a)<(b)?(a):(b))
-#define V_MAX(a,b) ((a)>(b)?(a):(b))
+/* single evaluation of each argument (the arguments are often PRNG draws) */
+#define V_MIN(a,b) __extension__ ({ __typeof__(a) v_a_ = (a); __typeof__(b) v_b_ = (b); v_a_ < v_b_ ? v_a_ : v_b_; })
+#define V_MAX(a,b) __extension__ ({ __typeof__(a) v_a_ = (a); __typeof__(b) v_b_ = (b); v_a_ > v_b_ ? v_a_ : v_b_; })
 
 /* ------------------------------------------------------------------ PRNG */
 typedef struct { uint64_t s; } vrng;
